@@ -562,7 +562,7 @@ func ruleLabelKeysCaseInsensitive(c *Ctx) {
 	c.need(rule, glv, "answer with a label's value", func(x ssa.Instruction) bool {
 		r, ok := x.(*ssa.Return)
 		return ok && len(r.Results) == 1 && derivesFrom(retVal(r, 0), orPred(resultOfCall(getValue), loadOfField(valueF)), 3)
-	}, []Ev{guardCall("strings.EqualFold(label key, key)", true, isFold)}, all, "a label is the wanted one when its key equals the wanted key ignoring case")
+	}, []Ev{guardCall("strings.EqualFold(label key, key)", true, isFold), guardRel("ToLower(label key) == ToLower(key)", "==", isCaseFolded, isCaseFolded)}, anyOf, "a label is the wanted one when its key equals the wanted key ignoring case")
 	ml := P.Method("server/core", "StoreInfo", "MergeLabels")
 	n := 0
 	for _, b := range ml.Blocks {
@@ -787,6 +787,139 @@ func init() {
 		c.Group("C10/target-from-selector", "every peer added by a checker is placed on the store the selector returned, and only when it returned one", func() { ruleRepairTargets(c) })
 		c.Group("C10/co-location-inputs", "the isolation of a candidate is measured against the rule's own peers (rule checker) or the region's peers (replica checker)", func() { ruleCoLocationInputs(c) })
 		c.Group("C10/checker-selection", "the rule checker runs only with placement rules on, the replica and learner checkers only with them off", func() { ruleCheckerSelection(c) })
-		c.Group("C10/shrink-only-when-extra", "outright removals only with more voters than configured (replica checker) or as orphan with all rules satisfied (rule checker); replacements add before they remove", func() { ruleShrinkOnlyWhenExtra(c) })
+		c.Group("C10/shrink-only-when-extra", "outright removals only with more voters than configured (replica checker) or as orphan with all rules satisfied (rule checker); replacements add before they remove", func() { ruleShrinkOnlyWhenExtra(c); ruleRulePeersCarryTheRuleRole(c); ruleReplacementAddsItsPeer(c) })
 	})
+}
+
+// isCaseFolded: strings.ToLower(x) or strings.ToUpper(x) — the other spelling
+// of a case-insensitive comparison when used on both sides of ==.
+func isCaseFolded(v ssa.Value) bool {
+	cl, ok := strip(v).(*ssa.Call)
+	if !ok {
+		return false
+	}
+	f := cl.Call.StaticCallee()
+	return f != nil && f.Pkg != nil && f.Pkg.Pkg.Path() == "strings" && (f.Name() == "ToLower" || f.Name() == "ToUpper")
+}
+
+// ruleRulePeersCarryTheRuleRole: a replica the rule checker adds for a rule
+// gets that rule's role. A literal without the role is a voter: for a learner
+// rule the operator builder then finds no replacement pair (roles differ) and
+// plans the removal first, or the region gains a voter nobody asked for.
+func ruleRulePeersCarryTheRuleRole(c *Ctx) {
+	P := c.P
+	rule := c.Prop + "/shrink-only-when-extra"
+	mpb := "github.com/pingcap/kvproto/pkg/metapb"
+	peerT := P.named(mpb, "Peer")
+	storeID := P.Field(mpb, "Peer", "StoreId")
+	roleF := P.Field(mpb, "Peer", "Role")
+	metaRole := F(P.Method("server/schedule/placement", "PeerRoleType", "MetaPeerRole"))
+	ruleRole := P.Field("server/schedule/placement", "Rule", "Role")
+	n := 0
+	for _, fn := range P.Funcs {
+		if P.isScaffold(fn) || fnPkgPath(fn) != modPath+"/"+chk {
+			continue
+		}
+		m := fn
+		for m.Parent() != nil {
+			m = m.Parent()
+		}
+		if m.Signature.Recv() == nil {
+			continue
+		}
+		if rn := namedOf(m.Signature.Recv().Type()); rn == nil || rn.Obj().Name() != "RuleChecker" {
+			continue
+		}
+		k := 0
+		for _, b := range fn.Blocks {
+			for _, ins := range b.Instrs {
+				al, ok := ins.(*ssa.Alloc)
+				if !ok {
+					continue
+				}
+				if nn := namedOf(al.Type()); nn == nil || nn.Obj() != peerT.Obj() {
+					continue
+				}
+				hasStore, roleOK := false, false
+				for _, ref := range *al.Referrers() {
+					fa, ok := ref.(*ssa.FieldAddr)
+					if !ok {
+						continue
+					}
+					for _, rr := range *fa.Referrers() {
+						st, ok := rr.(*ssa.Store)
+						if !ok || st.Addr != ssa.Value(fa) {
+							continue
+						}
+						switch fieldOfAddr(fa) {
+						case storeID:
+							hasStore = true
+						case roleF:
+							if cl, _ := callOf(st.Val); cl != nil && metaRole.Match(cl.Common()) && derivesFrom(callRecv(cl.Common()), loadOfField(ruleRole), 4) {
+								roleOK = true
+							}
+						}
+					}
+				}
+				if !hasStore {
+					continue
+				}
+				k++
+				n++
+				c.Check(roleOK, rule, fmt.Sprintf("replica #%d planned in %s", k, fnName(fn)), "a peer planned for a rule carries that rule's role (Role: rule.Role.MetaPeerRole())", P.instrPos(al), "")
+			}
+		}
+	}
+	if n < 3 {
+		c.Undec(rule, "peers planned by the rule checker", "at least 3 (add, replace, better location)", "", fmt.Sprint(n))
+	}
+}
+
+// ruleReplacementAddsItsPeer: an operator constructor that removes the peer on
+// one store and is handed the peer that replaces it adds that peer; without
+// the addition a "replace" is an outright removal and the region shrinks.
+func ruleReplacementAddsItsPeer(c *Ctx) {
+	P := c.P
+	rule := c.Prop + "/shrink-only-when-extra"
+	op := "server/schedule/operator"
+	peerT := P.named("github.com/pingcap/kvproto/pkg/metapb", "Peer")
+	rm := F(P.Method(op, "Builder", "RemovePeer"))
+	add := F(P.Method(op, "Builder", "AddPeer"))
+	build := F(P.Method(op, "Builder", "Build"))
+	n := 0
+	for _, fn := range P.Funcs {
+		if P.isScaffold(fn) || fnPkgPath(fn) != modPath+"/"+op || fn.Parent() != nil || fn.Signature.Recv() != nil {
+			continue
+		}
+		var peers []ssa.Value
+		for _, p := range fn.Params {
+			if nn := namedOf(p.Type()); nn != nil && nn.Obj() == peerT.Obj() {
+				if _, isPtr := p.Type().(*types.Pointer); isPtr {
+					peers = append(peers, p)
+				}
+			}
+		}
+		if len(peers) == 0 || len(callsIn(fn, false, rm)) == 0 {
+			continue
+		}
+		n++
+		added := &calledEv{name: "AddPeer(the replacement handed in)", match: func(x ssa.Instruction) bool {
+			ci, ok := x.(ssa.CallInstruction)
+			if !ok || !add.Match(ci.Common()) {
+				return false
+			}
+			for _, a := range callArgs(ci.Common()) {
+				for _, p := range peers {
+					if sameVal(a, p) {
+						return true
+					}
+				}
+			}
+			return false
+		}}
+		c.need(rule, fn, "Build", instrCallMatcher(build), []Ev{added}, all, "a constructor that removes a peer and is handed its replacement adds the replacement")
+	}
+	if n < 3 {
+		c.Undec(rule, "replacement constructors (remove + peer handed in)", "at least 3", "", fmt.Sprint(n))
+	}
 }
